@@ -897,7 +897,10 @@ def validate_current_file(files_seen: Set[Union[str, Path]]) -> None:
 
 def lex_parse_curr_file(lexer: FJLexer, parser: FJParser) -> None:
     global curr_text, curr_namespace
-    curr_text = curr_file.open('r', encoding='utf-8').read()
+    try:
+        curr_text = curr_file.open('r', encoding='utf-8').read()
+    except UnicodeDecodeError as decode_error:
+        raise FlipJumpParsingException(f"The .fj file '{curr_file}' is not a valid utf-8 text: {decode_error}.")
     curr_namespace = []
 
     lex_res = lexer.tokenize(curr_text)
